@@ -64,6 +64,15 @@ def run(tier, seed):
     lib.harness(["serde-rt", ip, op])
     types = {}
     for o in lib.read_ndjson(op):
+        if o["id"] == "__concurrent__":
+            v.case("concurrent")
+            if not o["round_trips_alone"]:
+                raise lib.ToolError("the 60-level probe value does not round-trip on its own")
+            if o["failures"]:
+                v.violation("a value that round-trips on its own does not when other threads convert values at the same time",
+                            {"threads": o["threads"], "conversions_per_thread": o["conversions_per_thread"], "failed_conversions": o["failures"], "examples": o["examples"]})
+            v.cov["concurrent_conversions"] = o["threads"] * o["conversions_per_thread"]
+            continue
         it = items[o["id"]]
         types[it["ty"]] = types.get(it["ty"], 0) + 1
         v.case(json.dumps([it["ty"], it["json"] if it.get("tagged") is None else it["tagged"]]))
